@@ -114,17 +114,20 @@ pub fn spec_replacement(env: &SpecEnv, mstart: usize, tpl: &[u8]) -> Option<Vec<
       Tok::Lit(l) => bytes.extend(l),
       Tok::Var { multi, name, at } => {
         let t = spec_indent_at(tpl, at);
-        let range = if multi {
-          env.multi.iter().find(|x| x.0 == name).and_then(|x| {
-            if x.1.is_empty() { None } else { Some((x.1[0].0, x.1[x.1.len() - 1].1)) }
-          })
-        } else if trans_names.contains(&&name) {
+        // a captured variable is substituted whichever sigil spells it (fix 648fad9): `$$$X` looks at the
+        // multiple capture, then the single one, then the transformation; `$X` at the single capture, then
+        // the multiple one; the name of a transformation under `$`/`$$` is the transformed text
+        let multi_range = env.multi.iter().find(|x| x.0 == name).and_then(|x| {
+          if x.1.is_empty() { None } else { Some((x.1[0].0, x.1[x.1.len() - 1].1)) }
+        });
+        let single_range = env.single.iter().find(|x| x.0 == name).map(|x| x.1);
+        let is_trans = trans_names.contains(&&name);
+        let range = if multi { multi_range.or(single_range) } else if is_trans { None } else { single_range.or(multi_range) };
+        if range.is_none() && is_trans {
           let src = &env.trans.iter().find(|x| x.0 == name).unwrap().1;
           bytes.extend(spec_reindent(src, t));
           continue;
-        } else {
-          env.single.iter().find(|x| x.0 == name).map(|x| x.1)
-        };
+        }
         let Some((s, e)) = range else { continue }; // unbound: expands to nothing
         let text = &env.doc[s..e];
         if !text.contains(&b'\n') {
